@@ -1163,6 +1163,29 @@ func suiteLiterals(r *Rng, n int, thorough bool, o *Out) {
 			}
 		}
 		o.emit(lst("unm", "res", ssx, sxResSke(data)), obs, pv)
+		if r.chance(1, 3) {
+			// the same linkage through partial unmarshaling: a relationship whose data member
+			// is present (null included) is part of the result and holds the listed IDs
+			obsP, pvP, part := runUnmarshalRes("UnmarshalPartialResource", data, s, true)
+			if part != nil {
+				for _, name := range names {
+					n, _ := parseJSON([]byte(objs[name]))
+					_, has := part.Rels()[name]
+					if (n.get("data") != nil) != has {
+						pvP = fmt.Sprintf("FAIL:partial: relationship %s (payload %s) present=%v", name, objs[name], has)
+						break
+					}
+					if has {
+						if m := linkageVerdict(part, name, typ.Rels[name], objs[name]); m != "ok" {
+							pvP = m + " (partial, " + name + ")"
+							break
+						}
+					}
+				}
+			}
+			o.stat("partial.linkage")
+			o.emit(lst("unm", "partial", ssx, sxResSke(data)), obsP, pvP)
+		}
 	}
 }
 
